@@ -305,6 +305,13 @@ def run_check(mod, tier, seed, replay=None):
         hits = lean_grep_forbidden()
         if hits:
             violations.append(('forbidden-token', 'forbidden tokens in lean sources: %s' % hits[:5], {'hits': hits}, True))
+        # thorough tier: the compiled module is replayed through the toolchain's independent re-checker
+        if tier == 'thorough' and os.environ.get('VERIF_NO_LEANCHECKER') != '1':
+            t0 = time.time()
+            rc, out = sh(['lake', 'env', 'leanchecker', 'NmVerif.Props.' + pid], cwd=LEAN)
+            notes.append('leanchecker NmVerif.Props.%s: rc=%d in %.0fs' % (pid, rc, time.time() - t0))
+            if rc != 0:
+                violations.append(('leanchecker', 'leanchecker rejects NmVerif.Props.%s' % pid, {'log': out[-4000:]}, True))
 
     # 2. harness builds ------------------------------------------------------------------------
     specs = list(mod.harness_specs(tier))
